@@ -5,7 +5,7 @@ import os
 from harness import common, gen_text, textimpl
 from harness.common import cps, uncps
 
-BRIDGE = ('Gemato.Bridge.Text', 'Gemato.Bridge.SrcText')
+BRIDGE = ('Gemato.Bridge.Text', 'Gemato.Bridge.SrcText', 'Gemato.Bridge.SrcCodec')
 PROPS = ['Gemato.Props.C08', 'Gemato.Props.C08b']
 SUFFIXES = ['', '.gz', '.bz2', '.lzma', '.xz']
 
